@@ -143,6 +143,9 @@ pub fn strategy() -> impl Strategy<Value = Case> {
 
 #[derive(Clone, Debug)]
 pub struct StepSpec {
+    /// number of `isready` lines sent in bursts while the search runs (its readyok answers
+    /// interleave with the info lines on stdout)
+    pub flood: usize,
     pub position: String,
     pub fen_after: String,
     pub go: String,
@@ -151,7 +154,7 @@ pub struct StepSpec {
 }
 
 pub fn steps_json(steps: &[StepSpec]) -> Value {
-    json!({"steps": steps.iter().map(|s| json!({"position": s.position, "fen_after": s.fen_after, "go": s.go, "depth_only": s.depth_only, "deadline_ms": s.deadline_ms})).collect::<Vec<_>>()})
+    json!({"steps": steps.iter().map(|s| json!({"flood": s.flood, "position": s.position, "fen_after": s.fen_after, "go": s.go, "depth_only": s.depth_only, "deadline_ms": s.deadline_ms})).collect::<Vec<_>>()})
 }
 
 /// One (position, go) on a running engine: collects the info lines up to the bestmove and
@@ -167,7 +170,21 @@ pub fn judge_one(eng: &mut Engine, st: &StepSpec, rep: &mut Report) -> Result<Op
     let root = Pos::from_fen(fen_after).unwrap();
     let mut infos: Vec<(String, Info)> = vec![];
     let bestmove;
+    let mut flood_left = st.flood;
+    if flood_left > 0 {
+        rep.class("isready-flood-during-search");
+    }
     loop {
+        // keep the command loop answering while the search prints
+        if flood_left > 0 {
+            let burst = flood_left.min(40);
+            let mut text = String::new();
+            for _ in 0..burst {
+                text.push_str("isready\n");
+            }
+            eng.send_raw(text.as_bytes());
+            flood_left -= burst;
+        }
         let ev = eng.wait_for(deadline, |e| e.stream == Stream::Out || e.eof || (e.stream == Stream::Err && uciproc::is_panic_line(&e.line)));
         match ev {
             None => {
@@ -183,6 +200,11 @@ pub fn judge_one(eng: &mut Engine, st: &StepSpec, rep: &mut Report) -> Result<Op
                 if e.line.starts_with("bestmove") {
                     bestmove = e.line.split_whitespace().nth(1).unwrap_or("").to_string();
                     break;
+                }
+                // every stdout line of a search is an info line, a readyok or the bestmove
+                let t = e.line.trim();
+                if st.flood > 0 && !t.is_empty() && t != "readyok" && !t.starts_with("info") {
+                    return Err(fail("syntax", "syntax/garbled-line".into(), format!("'{go}' at {fen_after} with isready sent during the search: stdout line '{}' is neither an info line, readyok nor bestmove", e.line)));
                 }
                 if e.line.starts_with("info") {
                     match parse_info(&e.line) {
@@ -274,7 +296,7 @@ pub fn run_steps(ctx: &Ctx, steps: &[StepSpec], rep: &mut Report) -> Result<(), 
 }
 
 pub fn search_case(ctx: &Ctx, position: &str, fen_after: &str, go: &str, depth_only: Option<u64>, deadline: Duration, rep: &mut Report) -> Result<(), Violation> {
-    run_steps(ctx, &[StepSpec { position: position.into(), fen_after: fen_after.into(), go: go.into(), depth_only, deadline_ms: deadline.as_millis() as u64 }], rep)
+    run_steps(ctx, &[StepSpec { flood: 0, position: position.into(), fen_after: fen_after.into(), go: go.into(), depth_only, deadline_ms: deadline.as_millis() as u64 }], rep)
 }
 
 /// Game flow: several searches in ONE engine process along a game (the engine's own move, then
@@ -301,7 +323,7 @@ pub fn flow_case_from(ctx: &Ctx, from: &Game, gos: usize, depth: u64, replies: &
         if game.cur.legal_moves().is_empty() {
             break;
         }
-        let st = StepSpec { position: position_command(&game.start, &game.moves_uci()), fen_after: game.cur.to_fen(), go: format!("go depth {depth}"), depth_only: Some(depth), deadline_ms: 120_000 };
+        let st = StepSpec { flood: 0, position: position_command(&game.start, &game.moves_uci()), fen_after: game.cur.to_fen(), go: format!("go depth {depth}"), depth_only: Some(depth), deadline_ms: 120_000 };
         steps.push(st.clone());
         let best = match judge_one(&mut eng, &st, rep) {
             Ok(Some(b)) => b,
@@ -384,6 +406,35 @@ pub fn run(ctx: &Ctx) -> Report {
             }
         }
     }
+    // searches during which the GUI keeps asking isready (readyok lines interleave with info lines)
+    if ctx.shard_index() >= 2 {
+        let fens = [Pos::startpos().to_fen(), "8/8/8/3k4/8/3K4/8/8 w - - 0 1".to_string(), "r3k2r/p1ppqpb1/bn2pnp1/3PN3/1p2P3/2N2Q1p/PPPBBPPP/R3K2R w KQkq - 0 1".to_string()];
+        let fen = &fens[ctx.shard_index() % 3];
+        let go = ["go depth 60", "go movetime 400", "go depth 5"][ctx.shard_index() % 3];
+        let depth_only = if go == "go depth 5" { Some(5) } else { None };
+        // bare kings: 'go depth 60' finishes at once and prints 60 info lines while 2000 isready arrive
+        let st = StepSpec { flood: ctx.tier.pick(2000, 20_000), position: format!("position fen {fen}"), fen_after: fen.clone(), go: go.into(), depth_only, deadline_ms: 120_000 };
+        if go != "go depth 60" || fen.starts_with("8/8/8/3k4") {
+            if let Err(v) = run_steps(ctx, &[st], &mut rep) {
+                if let Some(k) = ctx.is_known(&v.sig) {
+                    rep.known(&v.sig, &k.text);
+                } else {
+                    rep.violation(v);
+                }
+            }
+        }
+    }
+    // roots from mate nets, either side to move (forced wins and forced losses at the root)
+    let nets = ctx.tier.pick(160, 3200) / ctx.shard_count() as u32;
+    run_prop(ctx, "c14-nets", nets, 20, (gen::synth_strategy(), 2u64..=5), &mut rep, |(ent, n), rep| {
+        let Some(p) = super::c12::mate_net_pos(&mut Entropy::new(ent)) else { return Ok(()) };
+        let legal = p.legal_moves().len();
+        if legal == 0 || legal > 30 {
+            return Ok(());
+        }
+        rep.class("root:mate-net");
+        search_case(ctx, &format!("position fen {}", p.to_fen()), &p.to_fen(), &format!("go depth {n}"), Some(*n), Duration::from_secs(120), rep)
+    });
     // game flow: 6-10 consecutive depth-3/4 searches along a game in one engine process
     let flows = ctx.tier.pick(48, 800) / ctx.shard_count() as u32;
     let fstrat = (gen::game_strategy(24), proptest::collection::vec(any::<u16>(), 10), 3u64..=4, 6usize..=10);
@@ -457,6 +508,7 @@ pub fn replay(ctx: &Ctx, case: &Value) -> Report {
     if let Some(a) = case["steps"].as_array() {
         for s in a {
             steps.push(StepSpec {
+                flood: s["flood"].as_u64().unwrap_or(0) as usize,
                 position: s["position"].as_str().unwrap_or("position startpos").into(),
                 fen_after: s["fen_after"].as_str().unwrap_or("").into(),
                 go: s["go"].as_str().unwrap_or("go depth 1").into(),
@@ -466,6 +518,7 @@ pub fn replay(ctx: &Ctx, case: &Value) -> Report {
         }
     } else {
         steps.push(StepSpec {
+            flood: case["flood"].as_u64().unwrap_or(0) as usize,
             position: case["position"].as_str().unwrap_or("position startpos").into(),
             fen_after: case["fen_after"].as_str().unwrap_or("").into(),
             go: case["go"].as_str().unwrap_or("go depth 1").into(),
@@ -480,5 +533,5 @@ pub fn replay(ctx: &Ctx, case: &Value) -> Report {
 }
 
 pub const LEVEL: &str = "exploration";
-pub const RULE: &str = "searches on the real engine binary: positions with >= 1 legal move (startpos / corpus / synthesised / pattern starts incl. mate nets, plus up to 40 plies of play) x 'go depth N' alone (N = 1..5; 5 only with <= 25 legal moves; plus N = 40 and 255 on a forced-mate position), game-flow sessions (6-10 consecutive depth-3/4 searches along a game in ONE engine process: the engine's own move, then a generated reply, so later searches meet cache entries of earlier ones) and, for the ordering and PV clauses, 'go nodes {50..100000}' / 'go movetime {5..300}'. Oracle: every stdout line starting with 'info' parses as UCI info (standard keys in any order, well-formed integers, moves in coordinate notation, score cp|mate); lines carrying 'depth' have depths exactly 1,2,...,k, each with a score and a non-empty pv that replays as legal moves from the searched position on the rules oracle; under 'go depth N' alone k == N before the bestmove. A missing bestmove is C09's subject and only counted here. Non-trivial = depth-only search with N >= 2, or a limited search with >= 2 iteration reports; distinct by (position, go command).";
+pub const RULE: &str = "searches on the real engine binary: positions with >= 1 legal move (startpos / corpus / synthesised / pattern starts incl. mate nets, plus up to 40 plies of play) x 'go depth N' alone (N = 1..5; 5 only with <= 25 legal moves; plus N = 40 and 255 on a forced-mate position), roots from constructed mate nets with either side to move (forced wins and forced losses), searches during which isready is sent 2000 times (every stdout line must be an info line, readyok or the bestmove), game-flow sessions (6-10 consecutive depth-3/4 searches along a game in ONE engine process: the engine's own move, then a generated reply, so later searches meet cache entries of earlier ones) and, for the ordering and PV clauses, 'go nodes {50..100000}' / 'go movetime {5..300}'. Oracle: every stdout line starting with 'info' parses as UCI info (standard keys in any order, well-formed integers, moves in coordinate notation, score cp|mate); lines carrying 'depth' have depths exactly 1,2,...,k, each with a score and a non-empty pv that replays as legal moves from the searched position on the rules oracle; under 'go depth N' alone k == N before the bestmove. A missing bestmove is C09's subject and only counted here. Non-trivial = depth-only search with N >= 2, or a limited search with >= 2 iteration reports; distinct by (position, go command).";
 pub const ASSUMPTIONS: &[&str] = &["the rules oracle replays the PVs", "whether a reported mate distance is right is not asserted (the statement does not fix it)"];
